@@ -153,10 +153,15 @@ def _(x, base, result):
     return in_re(x, DIGITS[base]) or result is NUM
 
 
+WS = r'[ \t\n\x0b\x0c\r]*'
+PY_INT = {2: WS + r'[+-]?(0[bB]_?)?[01]+(_[01]+)*' + WS, 8: WS + r'[+-]?(0[oO]_?)?[0-7]+(_[0-7]+)*' + WS,
+          16: WS + r'[+-]?(0[xX]_?)?[0-9a-fA-F]+(_[0-9a-fA-F]+)*' + WS}
+
+
 @c_x2dec.known_region('KF-C20-1', 'anything-else-is-NUM')
 def _(x, base):
-    # text that CPython's int(s, base) accepts beyond plain digits: sign, blanks, 0x/0o/0b prefix, '_'
-    return not in_re(x, DIGITS[base])
+    # exactly the text CPython's int(s, base) accepts beyond plain digits: sign, blanks, 0x/0o/0b prefix, '_'
+    return in_re(x, PY_INT[base]) and not in_re(x, DIGITS[base])
 
 
 @c_x2dec.canary('canary:always-non-negative')
